@@ -27,6 +27,7 @@ import (
 	"github.com/anyproto/any-sync/commonspace/sync/objectsync/objectmessages"
 	"github.com/anyproto/any-sync/commonspace/sync/syncdeps"
 	"github.com/anyproto/any-sync/commonspace/syncstatus"
+	"github.com/anyproto/any-sync/consensus/consensusproto"
 	"github.com/anyproto/any-sync/net/peer"
 )
 
@@ -212,4 +213,38 @@ func (x *runner) announce(p, r *replica, i int) (synced bool, served []int, err 
 		}
 	}
 	return synced, served, nil
+}
+
+// hostileBatch hands recs to replica r the way a peer would: as the records of a head update
+// (HandleHeadUpdate) or of a full-sync response (ResponseCollector -> HandleResponse). The errors
+// the handler returns are the refusal of the tail; what matters is what the list holds afterwards.
+func (x *runner) hostileBatch(r *replica, recs []*consensusproto.RawRecordWithId, via string) error {
+	w := x.w
+	nr, err := r.syncNode()
+	if err != nil {
+		return fmt.Errorf("sync component of %s: %w", r.name, err)
+	}
+	r.acl = nr.sa
+	root := w.log[0]
+	head := recs[len(recs)-1].Id
+	ctxR := peer.CtxWithPeerId(ctx, "peer-hostile")
+	switch via {
+	case "headUpdate":
+		logMsg := consensusproto.WrapHeadUpdate(&consensusproto.LogHeadUpdate{Head: head, Records: recs}, root)
+		payload, err := logMsg.MarshalVT()
+		if err != nil {
+			return err
+		}
+		in := &spacesyncproto.ObjectSyncMessage{SpaceId: w.spaceId, Payload: payload, ObjectId: root.Id, ObjectType: spacesyncproto.ObjectType_Acl}
+		recv := &objectmessages.HeadUpdate{}
+		if err := recv.SetProtoMessage(in); err != nil {
+			return err
+		}
+		_, _ = nr.sa.HandleHeadUpdate(ctxR, syncstatus.NewNoOpSyncStatus(), recv)
+	case "response":
+		coll := nr.sa.ResponseCollector()
+		resp := &response.Response{SpaceId: w.spaceId, ObjectId: root.Id, Head: head, Records: recs, Root: root}
+		_ = coll.CollectResponse(ctxR, "peer-hostile", root.Id, resp)
+	}
+	return nil
 }
